@@ -2,6 +2,9 @@
 """replay the stored witness of every known finding: open ones must fail with a matching signature, fixed ones must hold"""
 import json,subprocess,re,sys,os
 os.chdir(os.path.dirname(os.path.abspath(__file__))+'/..')
+for v in ('DLVERIF_DARKLUA_BIN','DLVERIF_DARKLUA_CLI'):
+    os.environ.setdefault(v, os.getcwd()+'/harness/target/repo-cli/release/darklua')
+os.environ.setdefault('DLVERIF_SCRATCH','/dev/shm')
 k=json.load(open('known_findings.json'))
 bad=0
 for e in k:
